@@ -387,6 +387,7 @@ func retryOracles(run *retryRun, cfg string, modelSettled, stuck, havePlan bool,
 		}
 		if nT < nSilentAwaited {
 			v = append(v, viol("C18", "no-timeout-error", "%d request(s) met a silent broker but OnError reported %d RequestTimeoutError(s)", nSilentAwaited, nT))
+			v = append(v, viol("C19", "rto-not-identifiable", "%d request(s) ran into the response timeout but only %d of the errors given to OnError are identifiable as RequestTimeoutError", nSilentAwaited, nT))
 		}
 		if len(run.planMiss) > 0 && nSilentAwaited > 0 {
 			v = append(v, viol("C18", "stalled", "the client stopped making progress after a silent broker: %s", run.planMiss[0]))
